@@ -272,7 +272,7 @@ Definition deco_rules_ok (D : DecoRules) : Prop :=
 Definition step_rules_ok (S : StepRules) : Prop :=
   s_infer_x S = SrcBatch /\ s_gemini_aff S = SrcBatch /\ s_grads_x S = SrcBatch.
 Definition fit_rules_ok (F : FitRules) : Prop :=
-  (forall m, f_epochs F m = m) /\ (forall m, f_n_iter F m = m) /\ step_rules_ok (f_step F).
+  (forall m, f_epochs F m = m) /\ (forall m, f_n_iter F m = m) /\ step_rules_ok (f_step F) /\ f_iter F = IterLazy.
 (* the index part of compute_val_score's rules (any number type) *)
 Definition val_idx_ok {T} (V : ValRules (T := T)) : Prop :=
   v_start V = 0%Z /\ (forall j n, v_guard V j n = (j <? n)%Z) /\ (forall j b, v_step V j b = (j + b)%Z) /\
@@ -341,6 +341,26 @@ Proof.
   unfold epoch, batches in Hb. apply (chunks_incl _ _ _ _ Hb). exact Hi.
 Qed.
 
+(* with lazy iteration the indices _compute_grads sees are those of the rows of its own batch *)
+Lemma map_nth_seq {X Y} (f : X -> Y) (d : X) (l : list X) : map (fun k => f (nth k l d)) (seq 0 (length l)) = map f l.
+Proof.
+  induction l as [|x l IH]; [reflexivity|]. cbn [length seq map nth]. f_equal.
+  rewrite <- seq_shift, map_map. exact IH.
+Qed.
+
+Lemma code_decorated_visible_ok B D F : batch_rules_ok B -> deco_rules_ok D -> f_iter F = IterLazy -> forall n bs P,
+  1 <= eff_bs n bs -> is_perm_of_range n (P (Z.of_nat n)) ->
+  code_decorated_visible B D F n bs P = Some (map (fun b => (b, b)) (epoch n bs (P (Z.of_nat n)))).
+Proof.
+  intros HB HD HF n bs P Hbs Hp. unfold code_decorated_visible. rewrite (code_decorated_ok B D HB HD) by assumption.
+  rewrite HF. cbn [option_map visible_indices]. f_equal. set (Y := map dup4 _).
+  set (d := (@nil nat, (@nil nat, (@nil nat, @nil nat)))).
+  assert (E : map (fun b : list nat => (b, b)) (epoch n bs (P (Z.of_nat n))) = map (fun y => (fst y, fst (snd y))) Y)
+    by (unfold Y; rewrite map_map; reflexivity).
+  rewrite E. rewrite <- (map_nth_seq (fun y => (fst y, fst (snd y))) d Y). apply map_ext. intros k.
+  f_equal. exact (map_nth fst Y d k).
+Qed.
+
 (* ---- fit / _run_path training loops ---- *)
 Definition reads_of (b : list nat) : Reads := (b, ((b, b), b)).
 
@@ -359,7 +379,7 @@ Lemma code_fit_trace_ok B F : batch_rules_ok B -> fit_rules_ok F -> forall max_i
   code_fit_trace B F max_iter n bs P
   = Some (concat (map (fun e => map reads_of (epoch n bs (P e (Z.of_nat n)))) (seq 0 max_iter))).
 Proof.
-  intros HB (He & _ & HS) max_iter n bs P Hbs HP. unfold code_fit_trace, py_range.
+  intros HB (He & _ & HS & _) max_iter n bs P Hbs HP. unfold code_fit_trace, py_range.
   rewrite He, Nat2Z.id.
   rewrite (code_epochs_all _ (fun e => map dup3 (epoch n bs (P e (Z.of_nat n))))).
   - cbn [option_map]. f_equal. rewrite concat_map, map_map. f_equal. apply map_ext. intros e.
